@@ -90,7 +90,12 @@ func setNodeKey(ctx context.Context, key string) context.Context {
 	if !existed || len(path.path) == 0 {
 		return context.WithValue(ctx, nodePathKey{}, NewNodePath(key))
 	}
-	return context.WithValue(ctx, nodePathKey{}, NewNodePath(append(path.path, key)...))
+	// copy: sibling nodes derive their paths from the same parent path, whose backing array may
+	// have spare capacity
+	nPath := make([]string, 0, len(path.path)+1)
+	nPath = append(nPath, path.path...)
+	nPath = append(nPath, key)
+	return context.WithValue(ctx, nodePathKey{}, NewNodePath(nPath...))
 }
 
 func getStateModifier(ctx context.Context) StateModifier {
